@@ -477,10 +477,50 @@ func controls(b *ssa.BasicBlock) []Cond {
 		}
 		if t.Dominates(b) && len(t.Preds) == 1 {
 			out = append(out, Cond{iff.Cond, true, iff})
+			out = append(out, phiCondFacts(Cond{iff.Cond, true, iff}, 0)...)
 		} else if f.Dominates(b) && len(f.Preds) == 1 {
 			out = append(out, Cond{iff.Cond, false, iff})
+			out = append(out, phiCondFacts(Cond{iff.Cond, false, iff}, 0)...)
 		}
 	}
+	return out
+}
+
+// phiCondFacts: a condition computed ahead of its test (`ok := a != nil && a.x == y; … if ok {`) is a
+// phi of constants and one computed value. When the phi has the tested polarity although all its
+// constant edges have the other one, the computed edge was taken: its value has that polarity and
+// the conditions under which that edge is taken held.
+func phiCondFacts(c Cond, depth int) []Cond {
+	c = normCond(c)
+	phi, ok := c.V.(*ssa.Phi)
+	if !ok || depth > 3 {
+		return nil
+	}
+	var val ssa.Value
+	var pred *ssa.BasicBlock
+	for i, e := range phi.Edges {
+		if k, isC := e.(*ssa.Const); isC {
+			if !isConstBool(k, !c.Pol) {
+				return nil
+			}
+			continue
+		}
+		if val != nil {
+			return nil
+		}
+		val, pred = e, phi.Block().Preds[i]
+	}
+	if val == nil {
+		return nil
+	}
+	out := []Cond{{val, c.Pol, c.If}}
+	out = append(out, phiCondFacts(Cond{val, c.Pol, c.If}, depth+1)...)
+	if iff := lastIf(pred); iff != nil && pred.Succs[0] != pred.Succs[1] {
+		ec := Cond{iff.Cond, pred.Succs[0] == phi.Block(), iff}
+		out = append(out, ec)
+		out = append(out, phiCondFacts(ec, depth+1)...)
+	}
+	out = append(out, controls(pred)...)
 	return out
 }
 
